@@ -2,11 +2,8 @@
   Line-protocol driver: one request per line `op arg…`, one reply per line.
   Imports only core-only modules (Base, Model, Spec, Gen) so it links as a native executable.
 -/
-import Oracle.Avc
-
-def dispatch (op : String) (args : List String) : Option String :=
-  if op.startsWith "avc." then Oracle.Avc.handle op args
-  else none
+import Oracle.All
+open Oracle
 
 partial def loop (hin hout : IO.FS.Stream) : IO Unit := do
   let line ← hin.getLine
